@@ -54,6 +54,9 @@ claimed = {
  "C18": dict(text="Deductive proof on the real GateInstanceFromId, its regexp table and the deserialize* handlers, with the code's patterns translated to SMT-LIB regular languages: for each of the 14 identifier families plonky2 emits for supported gates (symbolic decimal parameters) the call returns, for every enumerated map iteration order, the gate type named with exactly the stated parameters and does not panic; for 11 families of identifiers of unimplemented gates (lookup, lookup table, the u32 crate gates, comparison, range check, and Exponentiation/RandomAccess/CosetInterpolation with D != 2) every path panics.",
              note=TRUST + " Models assumed: regexp (RE2 subset -> RegLan; FindStringSubmatch = leftmost match, decided structurally for identifiers that are concatenations of literals and parameters, otherwise any decomposition), strconv.Atoi/ParseUint on digit strings, strings.Split/TrimSpace uninterpreted (the weight list premise idlist says every trimmed piece is a decimal below 2^64; parsed weight values are not part of the statement). Iteration orders: insertion order and its reversal (quick), all 14 rotations and the reversal (thorough); any order visits a subset of the non-matching keys before the matching one. Parameters are bounded by 2^63 (larger values are refused by Atoi, not misbound). The identifier families are those of plonky2 at the revision the repository vendors (crypto/plonky2_u32) and of plonky2's Debug derive; hiding-refusal in ReadCommonCircuitData is part of C19's contract of that function.",
              technique="contracts + VC generation over go/ssa + SMT strings/regular languages (z3, cvc5 --strings-exp) + structural regex walk", design="§4 C18"),
+ "C13": dict(text="Deductive proof on the real FRI gadgets that: expFromBitsConstBase is the bit-selected product of base^(2^i) and calculateSubgroupX is g * w^bitreverse(index) (SOUND and COMPLETE, any bit length up to 62); fromOpeningsAndAlpha and finalPolyEval are the Horner reductions of plonky2; friCombineInitial, for the two opening batches of a plonky2 instance, equals alpha^{n_b}*sum + (reduce(evals_b, alpha) - opening_b)/(x - point_b) folded over the batches, with evals_b exactly the queried leaf values named by the batch (SOUND and COMPLETE); interpolate is the barycentric formula l(x)*sum_i y_i*w_i/(x - x_i) for any number of points (SOUND and COMPLETE); computeEvaluation (arity 16, SOUND) permutes the evaluations by 4-bit reversal, builds the coset x*(g^-1)^rev(index)*g^i, takes the weights 1/prod_{j!=i}(x_i - x_j) and returns the interpolant at beta.",
+             note=TRUST + " The inverse and the quotient in GF(p^2) are uninterpreted spec functions characterised by two uniqueness axioms (a fact of the field, assumed). An interpolation point equal to a domain point is rejected by the circuit (division by zero is refused, as C08 demands) where the reference returns y_i - the two differ only on that set of betas. The composition inside verifyQueryRound (consistency assertion per round, x -> x^16, comparison with the final polynomial) is executed symbolically for bounds, canonicity and the Merkle obligations (C12, C20) but its accept/reject relation is not summarised in a postcondition: the round loop's closed form needs a recursion over nested step data that the specification language cannot express. friCombineInitial is specified for exactly two batches (what GetInstance produces; a precondition at its call sites).",
+             technique="contracts + VC generation over go/ssa + SMT; recursive GF(p^2) specifications; ghost call arguments/results", design="§4 C13"),
  "C15": dict(text="Deductive proof (SOUND and COMPLETE, symbolic gate parameters, arbitrary canonical GF(p^2) wires and constants) that EvalUnfiltered of eleven gate types - arithmetic, extension arithmetic, extension multiplication, base-sum, constant, exponentiation, noop, public input, random access (per bits 0..6), reducing, extension reducing - returns, constraint by constraint, the gate polynomial of plonky2 written over the GF(p^2) specification functions; that computeFilter is plonky2's compute_filter (product over the selector group except the row, times UNUSED_SELECTOR - s when there are several selectors) and that evalFiltered multiplies every unfiltered constraint by that filter after stripping the selector constants (SOUND mode, dynamic gate call through the interface-method contract).",
              note=TRUST + " NOT covered at this commit: PoseidonGate, PoseidonMdsGate and CosetInterpolationGate evaluators (no contract; at the dynamic call their results are assumed canonical) and the position-wise summation in EvaluateGateConstraints (thin contract: length and canonicity). Gate parameters are bounded by 2^20 and wire vectors are assumed long enough in COMPLETE mode (circuit-configuration facts). 'Vanish on honestly generated rows' is a property of plonky2's polynomials, not of this code, and is not restated. The exponentiation multiplier is specified in the Go association; lemma ex_select_form proves it equal to plonky2's form.",
              technique="contracts + VC generation over go/ssa + SMT; opaque GF(p^2) operations; per-parameter case split for the random-access gate", design="§4 C15"),
